@@ -375,6 +375,247 @@ theorem nobody_hangs {s0 s : St} {ls : List Label} (h0 : s0.initial) (hl : ∀ l
     obtain ⟨t, s', hs, _⟩ := progress h0 hl h hcap hup hgw hu (by rw [hp]; simp)
     rw [hq t] at hs; cases hs
 
+/-! ## a retried send starts its unit again from the top -/
+
+/-- the frames a program puts on the wire, in program order -/
+def writesOf : List Step → List WFrame
+  | [] => []
+  | st :: p => match st.act with
+    | .write f => f :: writesOf p
+    | _ => writesOf p
+
+theorem writesOf_append (p q : List Step) : writesOf (p ++ q) = writesOf p ++ writesOf q := by
+  induction p with
+  | nil => rfl
+  | cons st p ih =>
+    simp only [List.cons_append, writesOf]
+    cases st.act <;> simp [ih]
+
+theorem writesOf_plain {l : List Act} (h : l.all Act.isCleanup = true) : writesOf (plain l) = [] := by
+  induction l with
+  | nil => rfl
+  | cons a l ih =>
+    simp only [List.all_cons, Bool.and_eq_true] at h
+    simp only [plain, List.map_cons, writesOf]
+    cases a <;> simp_all [Act.isCleanup, plain]
+
+/-- the unit of one HID `send`: EnableDeviceType when the command needs a device type, then the
+command (the hasseb driver writes a send-twice frame twice itself) -/
+def unitFrames (d : Driver) (c : Cmd) : List WFrame :=
+  (if c.frame.dt = 0 then [] else [edtFrame c.frame.dt]) ++
+  (if d = .hasseb ∧ c.frame.twice = true then [c.frame, { c.frame with dt := 0 }] else [c.frame])
+
+theorem writesOf_rawSend (d : Driver) (hd : d = .tridonic ∨ d = .hasseb) (c : Cmd) (out : List Act) :
+    writesOf (rawSend d c out) =
+      (if d = .hasseb ∧ c.frame.twice = true then [c.frame, { c.frame with dt := 0 }] else [c.frame]) := by
+  obtain ⟨⟨bits, data, twice, dt⟩, query⟩ := c
+  rcases hd with rfl | rfl <;> cases twice <;> cases query <;>
+    simp [rawSend, tridonicRaw, hassebRaw, writesOf]
+
+theorem writesOf_withEdt (d : Driver) (hd : d = .tridonic ∨ d = .hasseb) (c : Cmd) (out : List Act) :
+    writesOf (withEdt d c out) = unitFrames d c := by
+  unfold withEdt unitFrames
+  by_cases h : c.frame.dt = 0
+  · simp only [h, if_true, List.nil_append]; exact writesOf_rawSend d hd c out
+  · simp only [h, if_false, writesOf_append, writesOf_rawSend d hd]
+    rcases hd with rfl | rfl <;> simp [edtCmd, edtFrame]
+
+
+/-- what `raise t e` does to the task table: task `t` gets a new program - the clean-up of the exit, or
+(CommunicationError inside the HID send loop with exceptions off) the clean-up back to the loop head followed
+by the retry body; its retry body, the lock and the log are untouched -/
+theorem raiseStep_shape {s s' : St} {t : Tid} {e : Err} (h : raiseStep s t e = some s') :
+    ∃ tk st rest tk', s.tasks[t]? = some tk ∧ tk.prog = st :: rest ∧ s'.tasks = s.tasks.set t tk' ∧
+      tk'.retry = tk.retry ∧ tk'.tag = tk.tag ∧ s'.lock = s.lock ∧ s'.log = s.log ∧
+      ((tk'.prog = plain st.h ∧ tk'.exc = some e ∧ (e ≠ .comm ∨ tk.retry = none)) ∨
+       (∃ body, e = .comm ∧ tk.retry = some body ∧ st.act.canComm = true ∧
+          tk'.prog = plain st.hr ++ body ∧ tk'.exc = tk.exc)) := by
+  unfold raiseStep at h
+  cases ht : s.tasks[t]? with
+  | none => simp [ht] at h
+  | some tk =>
+    simp only [ht] at h
+    obtain ⟨prog, retry, exc0, tag⟩ := tk
+    cases prog with
+    | nil => simp at h
+    | cons st rest =>
+      simp only at h
+      by_cases hcr : st.act.canRaise = true
+      · simp only [hcr, Bool.not_true, Bool.false_eq_true, if_false] at h
+        have hexit : some (setTask s t { prog := plain st.h, retry := retry, exc := some e, tag := tag }) = some s' →
+            (e ≠ .comm ∨ retry = none) →
+            ∃ tk st' rest' tk', some (Async.Task.mk (st :: rest) retry exc0 tag) = some tk ∧ tk.prog = st' :: rest' ∧
+                s'.tasks = s.tasks.set t tk' ∧ tk'.retry = tk.retry ∧ tk'.tag = tk.tag ∧ s'.lock = s.lock ∧ s'.log = s.log ∧
+                ((tk'.prog = plain st'.h ∧ tk'.exc = some e ∧ (e ≠ .comm ∨ tk.retry = none)) ∨
+                 (∃ body, e = .comm ∧ tk.retry = some body ∧ st'.act.canComm = true ∧
+                    tk'.prog = plain st'.hr ++ body ∧ tk'.exc = tk.exc)) := by
+          intro hx hside
+          cases hx
+          exact ⟨_, st, rest, { prog := plain st.h, retry := retry, exc := some e, tag := tag },
+              rfl, rfl, rfl, rfl, rfl, rfl, rfl, Or.inl ⟨rfl, rfl, hside⟩⟩
+        cases retry with
+        | none => cases e <;> (simp only at h; exact hexit h (Or.inr rfl))
+        | some body =>
+          cases e with
+          | comm =>
+            simp only at h
+            by_cases hcc : st.act.canComm = true
+            · simp only [hcc, if_true] at h
+              cases h
+              exact ⟨_, st, rest, { prog := plain st.hr ++ body, retry := some body, exc := exc0, tag := tag },
+                rfl, rfl, rfl, rfl, rfl, rfl, rfl, Or.inr ⟨body, rfl, rfl, hcc, rfl, rfl⟩⟩
+            · simp [hcc] at h
+          | timeout => simp only at h; exact hexit h (Or.inl (by simp))
+          | io => simp only at h; exact hexit h (Or.inl (by simp))
+          | cancelled => simp only at h; exact hexit h (Or.inl (by simp))
+          | boom => simp only at h; exact hexit h (Or.inl (by simp))
+          | assertion => simp only at h; exact hexit h (Or.inl (by simp))
+          | oserror => simp only at h; exact hexit h (Or.inl (by simp))
+      · simp [hcr] at h
+
+/-- the retry body of every caller is the one `send` / `run_sequence` of driver `d` gave it -/
+def RetryFrom (d : Driver) (tasks : List Async.Task) : Prop :=
+  ∀ (t : Tid) (tk : Async.Task), tasks[t]? = some tk → ∃ c, tk.retry = (mkTask d c).retry
+
+theorem retryFrom_set {d : Driver} {tasks : List Async.Task} {t : Tid} {tk tk' : Async.Task}
+    (hR : RetryFrom d tasks) (ht : tasks[t]? = some tk) (hr : tk'.retry = tk.retry) :
+    RetryFrom d (tasks.set t tk') := by
+  intro u tku hu
+  rw [List.getElem?_set] at hu
+  by_cases hut : t = u
+  · subst hut
+    have hlt := getElem?_lt ht
+    simp only [hlt, if_true] at hu
+    cases hu
+    rw [hr]; exact hR t tk ht
+  · simp only [hut, if_false] at hu
+    exact hR u tku hu
+
+theorem step_retryFrom {d : Driver} {s s' : St} {l : Label}
+    (hl : match l with | .spawn tk => ∃ c, tk = mkTask d c | _ => True)
+    (hR : RetryFrom d s.tasks) (h : step? s l = some s') : RetryFrom d s'.tasks := by
+  cases l with
+  | spawn tk =>
+    obtain ⟨c, rfl⟩ := hl
+    simp only [step?] at h; cases h
+    intro u tku hu
+    simp only [List.getElem?_append] at hu
+    split at hu
+    · exact hR u tku hu
+    · have : u - s.tasks.length = 0 := by
+        cases hx : u - s.tasks.length with
+        | zero => rfl
+        | succ n => simp [hx] at hu
+      simp only [this, List.getElem?_cons_zero] at hu
+      cases hu; exact ⟨c, rfl⟩
+  | act t =>
+    simp only [step?] at h
+    obtain ⟨tk, st, rest, tag', ht, _, hts, _, _⟩ := actStep_shape h
+    rw [hts]
+    exact retryFrom_set hR ht (tk' := { tk with prog := rest, tag := tag' }) rfl
+  | raise t e =>
+    simp only [step?] at h
+    obtain ⟨tk, st, rest, tk', ht, _, hts, hr, _⟩ := raiseStep_shape h
+    rw [hts]
+    exact retryFrom_set hR ht hr
+  | deliver g m =>
+    simp only [step?] at h
+    split at h <;> cases h <;> exact hR
+  | env e =>
+    simp only [step?] at h
+    cases hc : Conn.step s.conn e with
+    | none => simp [hc] at h
+    | some c' =>
+      simp only [hc] at h
+      split at h <;> cases h <;> exact hR
+
+theorem run_retryFrom {d : Driver} {s s' : St} {ls : List Label} (hd : DriverSchedule d ls)
+    (hR : RetryFrom d s.tasks) (h : run? s ls = some s') : RetryFrom d s'.tasks := by
+  induction ls generalizing s with
+  | nil => simp only [run?] at h; cases h; exact hR
+  | cons l ls ih =>
+    simp only [run?] at h
+    cases hs : step? s l with
+    | none => simp [hs] at h
+    | some s1 =>
+      simp only [hs] at h
+      exact ih (fun x hx => hd x (List.mem_cons_of_mem _ hx))
+        (step_retryFrom (hd l List.mem_cons_self) hR hs) h
+
+
+theorem mem_plain {l : List Act} (h : l.all Act.isCleanup = true) : ∀ x ∈ plain l, x.act.isCleanup = true := by
+  intro x hx
+  simp only [plain, List.mem_map] at hx
+  obtain ⟨a, ha, rfl⟩ := hx
+  exact (List.all_eq_true.mp h) a ha
+
+/-- the caller whose retry body is set is a HID `send` with exceptions off -/
+theorem retry_body_of {d : Driver} {call : Call} {body : List Step} (h : (mkTask d call).retry = some body) :
+    (d = .tridonic ∨ d = .hasseb) ∧ ∃ c, call = .send c false ∧ body = withEdt d c [Act.rel] ++ [{ act := .rel }] := by
+  cases call with
+  | seq items => cases d <;> simp [mkTask] at h
+  | send c exc =>
+    cases d <;> cases exc <;> simp [mkTask] at h
+    · exact ⟨Or.inl rfl, c, rfl, h.symm⟩
+    · exact ⟨Or.inr rfl, c, rfl, h.symm⟩
+
+/-- `retry_resends_whole_unit` (strengthening after seeded round 2): in every reachable state of every schedule
+of `send` / `run_sequence` callers, when a CommunicationError hits a caller whose `send` runs with exceptions
+off — at ANY step of its unit: during the EnableDeviceType prefix or during the command itself, at the write or
+in a wait — the caller does not leave the call; what remains of its program is the synchronous clean-up back to
+the loop head (no frame written), then the WHOLE unit again and the release of the lock: the frames of the
+retried unit are exactly `unitFrames d c`, i.e. for a command that needs a device type the first frame written
+after the failure is EnableDeviceType again, never the bare command.  The lock and the wire log are untouched
+by the failure itself, so with `edt_adjacent` the device-type frame of the retry is again directly preceded by
+its prefix on the wire. -/
+theorem retry_resends_whole_unit (d : Driver) {s0 s s' : St} {ls : List Label} (h0 : s0.initial)
+    (hd : DriverSchedule d ls) (h : run? s0 ls = some s) {t : Tid} {tk : Async.Task}
+    (ht : s.tasks[t]? = some tk) (hretry : tk.retry.isSome = true)
+    (hstep : step? s (.raise t .comm) = some s') :
+    ∃ (c : Cmd) (st : Step) (rest cleanup : List Step) (tk' : Async.Task),
+      tk.prog = st :: rest ∧ st.act.canComm = true ∧
+      s'.tasks[t]? = some tk' ∧ tk'.exc = tk.exc ∧ tk'.retry = tk.retry ∧ s'.lock = s.lock ∧ s'.log = s.log ∧
+      tk'.prog = cleanup ++ withEdt d c [Act.rel] ++ [{ act := .rel }] ∧
+      (∀ x ∈ cleanup, x.act.isCleanup = true) ∧ writesOf cleanup = [] ∧
+      writesOf (withEdt d c [Act.rel]) = unitFrames d c ∧
+      (c.frame.dt ≠ 0 → (unitFrames d c).head? = some (edtFrame c.frame.dt)) ∧
+      edtOK none (withEdt d c [Act.rel]) = true := by
+  have hI := reachable_inv h0 (driverSchedule_ok hd) h
+  have hR : RetryFrom d s.tasks :=
+    run_retryFrom hd (by intro u tku hu; rw [h0.1] at hu; simp at hu) h
+  simp only [step?] at hstep
+  obtain ⟨tk0, st, rest, tk', ht0, hp, hts, hr, _, hlock, hlog, hcase⟩ := raiseStep_shape hstep
+  rw [ht] at ht0; cases ht0
+  obtain ⟨call, hcall⟩ := hR t tk ht
+  cases hb : tk.retry with
+  | none => rw [hb] at hretry; cases hretry
+  | some body =>
+    rw [hb] at hcall
+    obtain ⟨hdd, c, _, hbody⟩ := retry_body_of hcall.symm
+    have hlt := getElem?_lt ht
+    have hget : s'.tasks[t]? = some tk' := by rw [hts]; simp [hlt]
+    rcases hcase with ⟨_, _, hside⟩ | ⟨body', _, hb', hcc, hprog, hexc⟩
+    · -- leaving the call is impossible for `comm` while a retry body is set
+      rcases hside with h1 | h1
+      · exact absurd rfl h1
+      · rw [hb] at h1; cases h1
+    · rw [hb] at hb'; cases hb'
+      have hw := (hI.tasks t tk ht).wf
+      rw [hp] at hw
+      obtain ⟨hsok, _⟩ := wf_cons hw
+      have hro : retryOK (res s t) st.hr = true := by
+        simp only [stepOK, Bool.and_eq_true, Bool.or_eq_true] at hsok
+        rcases hsok.2 with h1 | h1
+        · simp [hb, hcc] at h1
+        · exact h1
+      simp only [retryOK, Bool.and_eq_true] at hro
+      refine ⟨c, st, rest, plain st.hr, tk', hp, hcc, hget, hexc, hr.trans hb, hlock, hlog, ?_, mem_plain hro.1,
+        writesOf_plain hro.1, writesOf_withEdt d hdd c _, ?_, ?_⟩
+      · rw [hprog, hbody, List.append_assoc]
+      · intro hne; simp [unitFrames, hne]
+      · obtain ⟨x, hx⟩ := withEdt_edt d c [Act.rel] none
+        simp [edtOK, hx]
+
 /-! ## non-vacuity -/
 
 /-- a two-caller run on the Tridonic model that ends with both callers done and the expected wire -/
@@ -382,6 +623,23 @@ example :
     let c6 : Cmd := ⟨⟨16, 0x03ED, false, 6⟩, true⟩
     (mkTask .tridonic (.send c6 true)).ok = true ∧ (mkTask .luba (.seq [.cmd c6, .sleep])).ok = true := by
   exact ⟨mkTask_ok _ _, mkTask_ok _ _⟩
+
+/-- a retried unit in the model: Tridonic `send(QueryGearType, exceptions=False)`, the gateway is lost while the
+command itself is in flight (the EnableDeviceType prefix had completed), comes back, the handshake is repeated:
+the wire holds prefix + command twice, everything is released -/
+example :
+    let c6 : Cmd := ⟨⟨16, 0x03ED, false, 6⟩, true⟩
+    let s0 : St := { cap := 2, conn := { limit := none, hsSteps := 2 } }
+    (run? s0 ([.env .connect, .env .hs, .env .hs, .spawn (mkTask .tridonic (.send c6 false)),
+              .act 0, .act 0, .act 0, .act 0, .act 0, .deliver 1 .echo, .act 0, .deliver 1 .answer, .act 0, .act 0, .act 0,
+              .act 0, .act 0, .act 0, .act 0,
+              .env .lose, .raise 0 .comm, .act 0, .act 0,
+              .env .back, .env .timer, .env .hs, .env .hs,
+              .act 0, .act 0, .act 0, .act 0, .deliver 3 .echo, .act 0, .deliver 3 .answer, .act 0, .act 0, .act 0,
+              .act 0, .act 0, .act 0, .act 0, .deliver 4 .echo, .act 0, .deliver 4 .answer, .act 0, .act 0, .act 0,
+              .act 0])).map
+      (fun s => (s.wire.map (·.2.data), s.tasks.all Task.finished && s.lock.isNone && s.inner.isEmpty && s.slots.isEmpty)) =
+    some ([0xC106, 0x03ED, 0xC106, 0x03ED], true) := by decide
 
 /-- K1 on the unchanged tree: the serial `send` without EnableDeviceType is NOT well formed -/
 theorem k1_witness_old_serial_send :
